@@ -2,6 +2,7 @@
 from . import core
 from .report import Check
 from .rules import cw, ed, mt, ts, vg, pm, ax, kb, dp, sg, uw, sm, fs
+from . import selftest
 
 
 def c18(tier):
@@ -13,7 +14,8 @@ def c18(tier):
               "Decides the wrapper's shape; does not decide numerical equality of results beyond forwarding.",
               assumptions=["extern \"C\" library functions (cfitsio, CHOLMOD, libc) do not raise C++ exceptions",
                            "libstdc++ algorithms on scalar ranges listed in core.NOTHROW_TABLE do not raise"])
-    P = core.load(tier=tier)
+    P = core.load(tier=tier, extra_units=selftest.UNITS)
+    selftest.run(P, C, ('cw1',))
     cw.run(P, C)
     C.extra["units"] = sorted(P.units.keys())
     C.extra["functions_analysed"] = len(P.functions)
@@ -29,13 +31,41 @@ def c08(tier):
               "file (behaviour of cfitsio on partial HDUs).",
               assumptions=["cfitsio's inherited-status convention: a call made with non-zero *status does nothing and keeps it",
                            "exceptional paths are not in the CFG (no EH edges): a throw leaves the writer with a failure, which is what the property wants"])
-    P = core.load(tier=tier)
+    P = core.load(tier=tier, extra_units=selftest.UNITS)
+    selftest.run(P, C, ('cw1','ed1'))
     n = ed.run(P, C)
     cw.cw1(P, C, only=("writesplinefitstable", "writesplinefitstable_mem"))
     cw.cw2(P, C, only=("writesplinefitstable", "writesplinefitstable_mem"))
+    if tier == "thorough":
+        py_write(P, C)
     C.extra["units"] = sorted(P.units.keys())
     C.extra["cfitsio_call_sites"] = n
     return C.finish()
+
+
+def py_write(P, C):
+    """thorough only: the Python binding's write method (extra unit, not part of the configured build)."""
+    C.rule("PY-1", "pysplinetable_write: the write_fits call lies in a try whose handler for std::exception sets the Python error and returns NULL", floor=1)
+    fs = [f for f in P.fns("pysplinetable_write") if f.unit == "python"]
+    if len(fs) != 1:
+        raise core.AnalysisBroken("python unit: pysplinetable_write not found")
+    f = fs[0]
+    calls = [i for i, cal in f.calls() if cal and cal["name"] == "write_fits"]
+    ok = False
+    det = "no write_fits call"
+    for i in calls:
+        for (t, in_try, _h) in f.enclosing_try(i):
+            if not in_try:
+                continue
+            for h in f.nodes[t]["handlers"]:
+                hn = f.nodes[h]
+                if hn.get("catchAll") or "std::exception" in hn.get("catchType", ""):
+                    sets = any(cal and cal["name"] == "PyErr_SetString" for _x, cal in f.calls(h))
+                    rets = [r for r in f.walk(h) if f.k(r) == "ReturnStmt"]
+                    nul = bool(rets) and all(ts.is_null(f, f.nodes[r]["value"]) for r in rets)
+                    ok = sets and nul
+                    det = "handler %s sets the Python error=%s, returns NULL=%s" % (hn.get("catchType") or "...", sets, nul)
+    C.ob("PY-1", "pysplinetable_write", "maps-failure", ok, f.where(), det)
 
 
 def c12(tier):
@@ -48,7 +78,8 @@ def c12(tier):
               "races inside CHOLMOD are not analysed.",
               assumptions=["POSIX semantics of pthread_cond_wait (atomically releases and re-acquires the mutex; spurious wake-ups allowed)",
                            "trial 0 receives &mutex/&cv and the others are memcpy'd from it (checked): one mutex, one condition variable"])
-    P = core.load(tier=tier)
+    P = core.load(tier=tier, extra_units=selftest.UNITS)
+    selftest.run(P, C, ('mt',))
     mt.run(P, C)
     C.extra["units"] = sorted(P.units.keys())
     return C.finish()
@@ -65,7 +96,8 @@ def c20(tier):
               "against an abstract model, nor allocators with fancy pointers.",
               assumptions=["std::allocator semantics: deallocate does not raise",
                            "exceptions are raised only at the elements the effect summary marks (throw, operator new, calls to raising functions)"])
-    P = core.load(tier=tier)
+    P = core.load(tier=tier, extra_units=selftest.UNITS)
+    selftest.run(P, C, ('ts2',))
     ts.run_c20(P, C)
     C.extra["units"] = sorted(P.units.keys())
     C.extra["mutators"] = [ts.fshort(f) for f in ts.mutators(P)]
@@ -80,7 +112,8 @@ def c13(tier):
               "(TS-3); the C wrapper contains and maps failures (CW-1/CW-2). Decides presence, shape and placement of the guards; does not "
               "decide memory safety inside CHOLMOD / the GLAM reshaping for valid arguments.",
               assumptions=["the hazards listed in psv/rules/vg.py FIT_OBLIGATIONS are the uses of the arguments that need a guard (derived by reading glam.c, splineutil.c)"])
-    P = core.load(tier=tier)
+    P = core.load(tier=tier, extra_units=selftest.UNITS)
+    selftest.run(P, C, ('ts2','cw1'))
     vg.vg1(P, C)
     ts.ts2(P, C, only=("fit",), rule_floor=2)
     ts.ts3(P, C, only=("fit",))
@@ -98,7 +131,8 @@ def c07(tier):
               "emptiness guard precedes populating (TS-3), and the C readers contain and map failures (CW-1/CW-2). Does not decide cfitsio's "
               "behaviour on corrupted bytes nor termination of evaluation on a loaded table.",
               assumptions=["cfitsio reports malformed HDUs through its status argument"])
-    P = core.load(tier=tier)
+    P = core.load(tier=tier, extra_units=selftest.UNITS)
+    selftest.run(P, C, ('ts2','cw1'))
     ts.ts2(P, C, only=("read_fits", "read_fits_mem", "read_fits_core", "splinetable(std::string,photospline::splinetable)"), rule_floor=4)
     r = ts.reset_fn_ok(P, C)
     if r is None:
@@ -121,7 +155,8 @@ def c15(tier):
               "raise follows the first member write (TS-2); the C wrapper maps failures (CW-1/2). Identities are by declaration, not by name. "
               "Does not decide the arithmetic of the coefficient transposition over runtime shapes, nor the inverse round trip.",
               assumptions=["extents may be null only for tables built by the stacking constructor; permuteDimensions assumes it is present"])
-    P = core.load(tier=tier)
+    P = core.load(tier=tier, extra_units=selftest.UNITS)
+    selftest.run(P, C, ('ts2',))
     pm.run(P, C)
     ts.ts2(P, C, only=("permuteDimensions",), rule_floor=1)
     cw.cw1(P, C, only=("splinetable_permute",))
@@ -138,7 +173,8 @@ def c16(tier):
               "length arithmetic cannot wrap (UW-3), and no raising element leaves a modified store unprotected (TS-2 on write_key / remove_key). "
               "Does not decide the map semantics over operation histories, nor that cfitsio preserves every accepted value byte for byte.",
               assumptions=["the structural keyword table in psv/rules/ax.py lists the cards cfitsio writes into a primary image header"])
-    P = core.load(tier=tier)
+    P = core.load(tier=tier, extra_units=selftest.UNITS)
+    selftest.run(P, C, ('ts2',))
     ax.run(P, C)
     ts.ts2(P, C, only=("write_key", "remove_key"), rule_floor=2)
     cw.cw1(P, C, only=("splinetable_get_key", "splinetable_read_key", "splinetable_write_key"))
@@ -154,7 +190,7 @@ def c05(tier):
               "variable-length arrays have positive extents (KB-6), and lookup rejects unordered (NaN) coordinates (SC-4). Does not decide index "
               "ranges inside the recurrences numerically (KB-5 not built) nor safety on tables that are not well-formed (C07).",
               assumptions=["tables are well-formed (C07): nknots >= 2*order+2, naxes = nknots-order-1", "centres come from searchcenters"])
-    P = core.load(tier=tier)
+    P = core.load(tier=tier, extra_units=selftest.UNITS)
     kb.kb1(P, C)
     kb.kb2(P, C)
     kb.kb3(P, C)
@@ -172,7 +208,7 @@ def c04(tier):
               "both call operators (SC-3). Does not decide termination of the binary search nor the bracket knot[c] <= x < knot[c+1] "
               "(loop invariants over runtime knots).",
               assumptions=["ordered (non-NaN) comparison semantics for SC-1; NaN is decided under C05 (SC-4)"])
-    P = core.load(tier=tier)
+    P = core.load(tier=tier, extra_units=selftest.UNITS)
     kb.sc123(P, C)
     C.extra["units"] = sorted(P.units.keys())
     return C.finish()
@@ -187,7 +223,7 @@ def c03(tier):
               "entry points are clones of the table's (CL-2); the C wrappers forward unchanged (CW-5). Does not decide bit identity under "
               "code generation (FMA contraction, vector vs scalar rounding), which is a property of the binary.",
               assumptions=["expression trees are compared; association order of floating-point operations is part of the tree"])
-    P = core.load(tier=tier)
+    P = core.load(tier=tier, extra_units=selftest.UNITS)
     dp.dp(P, C)
     dp.dp(P, C, variant="driver-noevaltmpl")
     dp.dp7(P, C)
@@ -206,10 +242,11 @@ def c02(tier):
               "selector only and passes knots/nknots/x/centre/order of the same dimension, with the gradient lanes wired value/derivative/value "
               "(CL-4). Does not decide numerical equality of any derivative.",
               assumptions=["bspline_deriv (recursive reference) is taken as the definition for derivative orders >= 2"])
-    P = core.load(tier=tier)
+    P = core.load(tier=tier, extra_units=selftest.UNITS)
     kb.kb4(P, C)
     dp.cl3(P, C)
     dp.cl4(P, C)
+    dp.cl6(P, C)
     C.extra["units"] = sorted(P.units.keys())
     return C.finish()
 
@@ -226,7 +263,7 @@ def c10(tier):
               assumptions=["B-splines with non-decreasing coefficients are non-decreasing (variation-diminishing property)",
                            "IEEE float addition is monotone; the copy double->float rounds monotonically",
                            "NaN data are out of scope (a NaN trial value is not clamped)"])
-    P = core.load(tier=tier)
+    P = core.load(tier=tier, extra_units=selftest.UNITS)
     sg.run_mono(P, C)
     sg.run_sign(P, C)
     C.extra["units"] = sorted(P.units.keys())
@@ -239,7 +276,7 @@ def c11(tier):
               "every store into nnls_normal_block3's result (SG-2). KKT optimality, agreement with the unique minimiser, termination of the inner "
               "loop and everything about the three other exported solvers are numerical and are NOT decided.",
               assumptions=["NaN data are out of scope"])
-    P = core.load(tier=tier)
+    P = core.load(tier=tier, extra_units=selftest.UNITS)
     sg.run_sign(P, C)
     C.extra["units"] = sorted(P.units.keys())
     C.extra["not_decided"] = ["KKT conditions", "termination", "nnls_lawson_hanson", "nnls_normal_block", "nnls_normal_block_updown"]
@@ -254,7 +291,8 @@ def c14(tier):
               "(UW-2); a failing convolve cannot leave a modified unprotected table (TS-2). The integral identity itself (blossoming, divided "
               "differences, sign of the normalisation) is numerical and is NOT decided.",
               assumptions=["admitted range: order <= 5 in the convolved dimension, kernels of 2..6 knots, so (k+q-1)! <= 10!"])
-    P = core.load(tier=tier)
+    P = core.load(tier=tier, extra_units=selftest.UNITS)
+    selftest.run(P, C, ('ts2',))
     uw.uw1(P, C)
     uw.uw2(P, C)
     ts.ts2(P, C, only=("convolve",), rule_floor=1)
@@ -274,7 +312,7 @@ def c19(tier):
               "bytes) nor files that are not well-formed.",
               assumptions=["card-length lemma: for any header card cfitsio returns, strlen(key)+1 + strlen(value)+1 <= 82",
                            "the table read by the constructor and the one measured by estimateMemory are the same file"])
-    P = core.load(tier=tier)
+    P = core.load(tier=tier, extra_units=selftest.UNITS)
     na, nt = sm.sm1(P, C)
     sm.sm2(P, C)
     sm.sm3(P, C)
@@ -294,7 +332,7 @@ def c06(tier):
               "item, BITPIX matches the element type (FS-2); reads substitute no special values (FS-3); the reserved-key filter is shared "
               "(FS-4). Does not decide bit-exactness of cfitsio's conversions, decoding of the shipped reference files, or independent readers.",
               assumptions=["cfitsio implements the FITS standard for the calls used"])
-    P = core.load(tier=tier)
+    P = core.load(tier=tier, extra_units=selftest.UNITS)
     fs.run(P, C)
     ax.fs4(P, C)
     C.extra["units"] = sorted(P.units.keys())
